@@ -103,6 +103,27 @@ Proof.
   destruct (limit <=? delay) eqn:E; cbn [andb snd]; [lia|]. apply Z.leb_gt in E. lia.
 Qed.
 
+(* the proxy's single attempt is [serve]; any further attempt breaks the limit *)
+Lemma serve_once limit delay st :
+  serve_n attempts_of_proxy limit delay st = (fst (serve limit delay st), snd (serve limit delay st), 1).
+Proof.
+  unfold serve_n, serve, attempts_of_proxy.
+  destruct ((0 <? limit) && (limit <=? delay)); cbn [fst snd]; [|reflexivity].
+  replace (Z.max 1 1) with 1 by reflexivity. rewrite Z.mul_1_l. reflexivity.
+Qed.
+Lemma within_limit_iff_single_attempt k limit delay st :
+  0 < limit -> limit <= delay -> 1 <= k ->
+  (snd (fst (serve_n k limit delay st)) <= limit <-> k = 1).
+Proof.
+  intros H1 H2 Hk. unfold serve_n.
+  replace (0 <? limit) with true by (symmetry; apply Z.ltb_lt; lia).
+  replace (limit <=? delay) with true by (symmetry; apply Z.leb_le; lia).
+  cbn [andb fst snd]. rewrite Z.max_r by lia. split; intro H; [nia | subst k; lia].
+Qed.
+Lemma retry_exceeds_limit : exists limit delay st, 0 < limit /\ limit < snd (fst (serve_n 2 limit delay st))
+  /\ snd (serve_n 2 limit delay st) = 2.
+Proof. exists 400, 2000, 200. vm_compute. repeat split; reflexivity. Qed.
+
 Lemma dial_timeout_is_504 limit connect st : 0 < limit -> limit <= connect -> dial limit connect st = 504.
 Proof.
   intros H1 H2. unfold dial.
